@@ -2,17 +2,6 @@
 //! `ok <chars consumed>` | `err` | `unknown`.
 use crate::util::dec;
 
-fn nom_prod(name: &str, input: &str) -> Option<Result<usize, ()>> {
-    fn run<O, E>(input: &str, r: Result<(&str, O), E>) -> Result<usize, ()> {
-        r.map(|(rest, _)| input.len() - rest.len()).map_err(|_| ())
-    }
-    Some(match name {
-        "ncname" => run(input, xml_nom::ncname(input)),
-        "qname" => run(input, xml_nom::qname(input)),
-        _ => return None,
-    })
-}
-
 pub fn case(line: &str) -> String {
     let mut it = line.split(' ');
     let grammar = it.next().unwrap_or("");
@@ -22,8 +11,8 @@ pub fn case(line: &str) -> String {
         None => return "badinput".to_string(),
     };
     let r = match grammar {
-        "xml" => nom_prod(name, &s).or_else(|| xml_parser::verif_production(name, &s)),
-        "xpath" => xml_xpath::expr::verif_production(name, &s),
+        "xml" => xml_nom::verif_production(name, &s).or_else(|| xml_parser::verif_production(name, &s)),
+        "xpath" => xml_nom::verif_production(name, &s).or_else(|| xml_xpath::expr::verif_production(name, &s)),
         _ => None,
     };
     match r {
